@@ -807,8 +807,9 @@ def tag_registry(P, rep, rule="TAG.unique"):
     pushes = [x for x in F.walk() if x.get("k") == "CXXMemberCallExpr" and x["c"][0].get("n") in ("push_back", "emplace_back")]
     good = len(in_if) == 1 and len(after) == 1 and len(pushes) == 1
     if good:
-        sub = astq.subscript(sc(cond["c"][0])) or astq.subscript(sc(cond["c"][1])) if cond.get("c") and len(cond["c"]) == 2 else None
-        good = sub is not None and norm.render(P, in_if[0]["c"][0], nocast=True) == norm.render(P, sub[1], nocast=True)
+        rv = sc(in_if[0]["c"][0])
+        loopvars = {v.get("r") for v in F.walk(loops[0]["c"][0]) if v.get("k") == "VarDecl"} if loops[0]["k"] == "ForStmt" and loops[0]["c"][0] else set()
+        good = rv.get("k") == "DeclRefExpr" and rv.get("r") in loopvars
         good = good and astq.is_ref_to(pushes[0]["c"][0]["c"][0], vec_k) and astq.is_ref_to(pushes[0]["c"][1], str_k)
         import sympy as sp
         r = norm.render(P, after[0]["c"][0], nocast=True).replace(" ", "")
